@@ -7,6 +7,11 @@
 //!   level 2: every lookup flavour must agree with the model (= the scan) for every inserted key and for
 //!            negative probes (key+-1 neighbours, truncated / extended keys, all-00 / all-FF, random), and batch
 //!            lookups must equal the element-wise single lookups.
+//! Coverage-driven extension: a share of the structures is then edited through the builders' editing operations
+//! (`from_encoding_file` / `from_archive_index` / `from_root_file`, remove, replace, add, clear), rebuilt, written and
+//! read through the alternative entry points (BLTE wrappers, `CascFormat`, `write_to`, root header variants, ...) and
+//! verified with the same two levels against the edited model; `ContentResolver` is re-probed after `clear_caches`
+//! and after loading edited manifests.
 //! Builder refusals (`Err`) are counted, never flagged. Every case is derived from (family, index, seed) so
 //! `--replay FILE` re-runs exactly the failing structure.
 
@@ -47,7 +52,7 @@ fn run_case(ctx: &Ctx, case: &Case, t: &mut Tally) {
 
 fn main() {
     let ctx = Ctx::init("C03", "exploration");
-    ctx.set_rule("a case is one structure (family, configuration, generated key set) built with the real builder, serialised, parsed and probed with every inserted key and negative probes through every lookup flavour; key-set sizes sit at every page/block capacity multiple -1/0/+1; non-trivial = at least 2 pages/blocks/root blocks, a boundary count, or (root) a total in 16..99; distinct by hash of (family, index, parameters)");
+    ctx.set_rule("a case is one structure (family, configuration, generated key set) built with the real builder, serialised, parsed and probed with every inserted key and negative probes through every lookup flavour; key-set sizes sit at every page/block capacity multiple -1/0/+1; non-trivial = at least 2 pages/blocks/root blocks, a boundary count, or (root) a total in 16..99; distinct by hash of (family, index, parameters). Every 2nd (TVFS, resolver) / 3rd (encoding, archive index, root) structure additionally goes through the editing operations of its builder (from_<parsed structure>, remove / replace / add / clear, builder-state queries vs the model), is rebuilt, written through an alternative entry-point pair (build_blte+parse_blte, CascFormat, ArchiveIndex::build / write_to, TvfsFile::build, load_from_blte, root header variants MFST / extended 20-28 bytes, rebuild_lookups) and probed again against the edited model (removed keys gone, replaced keys carry the new value); resolver chains are re-probed after clear_caches and after loading edited manifests into the same resolver");
     ctx.assume("the BTreeMap model records exactly what the harness passed to the builder APIs; value equality for 6-byte archive offsets is taken on the 48-bit number (archive_index<<32 | offset)");
     ctx.assume("root lookups return the first entry whose flags match: any inserted entry of the key that matches the query is accepted");
     install_panic_hook();
@@ -119,6 +124,32 @@ fn main() {
     for fam in ["encoding", "archive_index", "archive_group", "root", "tvfs", "resolver"] {
         if ctx.get_obs(&format!("{fam}.lookups")) == 0 && ctx.violation_signatures().iter().all(|s| !s.contains(&format!("|{fam}|"))) {
             ctx.inconclusive(&format!("family {fam} performed no lookups"));
+        }
+    }
+    // coverage-driven extension: every editing / alternative-entry-point stage must have run and probed something
+    for k in [
+        "encoding.edit.structures",
+        "encoding.edit.removed_key_probes",
+        "encoding.after-edit+blte.lookups",
+        "encoding.after-edit+CascFormat.lookups",
+        "archive_index.edit.structures",
+        "archive_index.after-edit+write_to.lookups",
+        "archive_index.after-edit+ArchiveIndex::build.lookups",
+        "archive_group.composite_offset_identities",
+        "root.edit.structures",
+        "root.edit.removed_id_probes",
+        "root.header-variant.lookups",
+        "root.CascFormat.lookups",
+        "root.rebuild_lookups.lookups",
+        "tvfs.load_from_blte.lookups",
+        "tvfs.CascFormat.lookups",
+        "tvfs.TvfsFile::build.lookups",
+        "resolver.after-clear_caches.lookups",
+        "resolver.after-reload.lookups",
+        "resolver.ext.reload_removed_ids",
+    ] {
+        if ctx.get_obs(k) == 0 && ctx.violation_signatures().is_empty() {
+            ctx.inconclusive(&format!("extension stage never ran: {k}"));
         }
     }
     ctx.finish();
